@@ -585,9 +585,9 @@ def run_c05(c):
         add("c:dtw_cc.warping_path_ndim",
             lambda: dtw_cc.warping_path_ndim(a, b, nd, include_distance=True, **kwz), True)
     else:
-        kwf = {k: v for k, v in kw.items() if k in ("window", "max_dist", "max_step", "max_length_diff", "penalty", "psi")}
-        if c["inner"] == "sq":
-            add("c:warping_path_fast", lambda: dtw.warping_path_fast(a, b, include_distance=True, **kwf), True)
+        kwf = {k: v for k, v in kw.items() if k in ("window", "max_dist", "max_step", "max_length_diff", "penalty", "psi",
+                                                    "inner_dist")}
+        add("c:warping_path_fast", lambda: dtw.warping_path_fast(a, b, include_distance=True, **kwf), True)
 
         def bpc():
             d, m = dtw.warping_paths_fast(a, b, compact=True, keep_int_repr=True, **kw)
